@@ -47,6 +47,18 @@ func (e *Engine) VerifyFunction(fn *ssa.Function, con *Contract) (err error) {
 			return fmt.Errorf("%s: contract names loop %d but the function has %d loops (contract-target-missing)", x.short, cl.Loop, len(x.hdrList))
 		}
 	}
+	// call-site clauses whose pattern matched no call (or send) of the function are legitimate as
+	// prohibitions (`requires false`) and in generated clause lists, so they are not an error; they
+	// are listed in the abstraction log so that a misspelt pattern is visible to the author. (A
+	// clause that matched on the pinned tree and stops matching is an `obligation-vanished`
+	// violation through the baseline.)
+	if e.cfg.Layers["contract"] && x.unroll == 0 {
+		for _, cl := range con.ClausesOf("at_call") {
+			if cl.appliesTo(e.prop) && !x.atCallHit[cl] && strings.TrimSpace(cl.Text) != "false" {
+				e.logAbs("%s: at_call %s matches no call site (%s)", x.short, cl.Arg, cl.Text)
+			}
+		}
+	}
 	if !e.passConc {
 		e.funcsDone = append(e.funcsDone, x.short)
 	}
